@@ -30,8 +30,7 @@ class C26:
                    'messages are at most Persister::MaxMsgLen (8192) bytes, the documented maximum; any byte values, the empty string included',
                    'find_nearest_highest_seqnum is called with last <= a few hundred (callers pass get_last_seqnum; the search is linear in last - requested)',
                    'the range callback returns true (continue); from >= 1; to == 0 means "to the last", to < from (to != 0) is an empty range',
-                   'file persister: histories containing a clean close/reopen start with a control-record store, as Session does (a message stored before any '
-                   'control record and then reopened is the subject of C27, not claimed here) - the generator puts one in front of other histories and counts them',
+                   'file persister: close/reopen anywhere in the history, also with a message stored before any control record (the class was excluded until 4fedfd4 repaired it)',
                    'backends configured in this build: memory and file (BDB/memcached/redis are compiled out)']
     rule = ('Hypothesis draws a backend (memory | file) and a history of 3-40 operations: put message (numbers 0..400 dense near 0, contents over all byte '
             'values, empty, up to 8192 bytes), put control, get, get control, get_last_seqnum, find_nearest_highest_seqnum, range get, and for the file backend '
@@ -72,12 +71,6 @@ class C26:
         excluded = []
         if kind == 'mem':
             ops = [o for o in ops if o[0] != 'O']
-        elif any(o[0] == 'O' for o in ops):
-            first_store = next((o for o in ops if o[0] in 'PC'), None)
-            if first_store is not None and first_store[0] != 'C':
-                # by construction: such a history gets a control-record store in front (see assumptions); counted
-                ops.insert(0, ['C', 1, 1])
-                excluded = ['control_store_prepended_to_history_with_reopen(C27 class avoided)']
         if not ops:
             return {'excluded': excluded}
         # model
@@ -186,10 +179,10 @@ CHECKS = {'C26': C26}
 class C27:
     id = 'C27'
     level = 'fault_enumeration'
-    build = [('asan', 'fx')]
+    build = [('plain', 'fxc')]
     workers = 8
-    examples = 400
-    assumptions = ['a crash is the death of the process right after a completed write() or lseek() system call on one of the persister\'s two files (the executable routes both calls '
+    examples = 1500
+    assumptions = ['the crash executor is a build of the working tree without sanitizers (fork of an ASan process is ~100x slower; memory safety of the persister is C26\'s ASan run); a crash is the death of the process right after a completed write() or lseek() system call on one of the persister\'s two files (the executable routes both calls '
                    'through counting wrappers; a forked child _exit()s at the chosen point); what was written by completed system calls is on disk, nothing else is (no torn writes, no '
                    'reordering by the file system)',
                    'for each generated history EVERY crash point is enumerated (the dry run counts them); histories: 1-8 store operations with distinct sequence numbers, message sizes '
@@ -208,7 +201,7 @@ class C27:
             self.workers = 16
 
     def make_executor(self):
-        return Executor(timeout=240.0)
+        return Executor(exe='fxc', flavour='plain', timeout=240.0)
 
     def strategy(self):
         data = st.one_of(st_bytes(), st.binary(min_size=0, max_size=300))
